@@ -124,6 +124,13 @@ var Lexical = []Family{
 	{"parens_over_limit", func(n int) string { k := n / 2; return "SELECT " + strings.Repeat("(", k) + "1" + strings.Repeat(")", k) }},
 	{"non_ascii", func(n int) string { return "SELECT " + rep("'é😀', ", n) + "1" }},
 	{"crlf_lines", func(n int) string { return "SELECT\r\n" + rep("a,\r\n", n) + "b FROM t" }},
+	// chains that alternate between operators of one precedence level
+	{"mixed_additive_chain", func(n int) string { return "SELECT " + rep("a + a - ", n) + "a" }},
+	{"mixed_multiplicative_chain", func(n int) string { return "SELECT " + rep("a * a / a % ", n) + "a" }},
+	{"mixed_json_chain", func(n int) string { return "SELECT a " + rep("-> 'k' ->> 'j' #> 'p' ", n) }},
+	{"mixed_comparison_and_or", func(n int) string { return "SELECT 1 FROM t WHERE " + rep("a = 1 AND b <> 2 OR ", n) + "c" }},
+	{"mixed_set_operations", func(n int) string { return rep("SELECT a FROM t UNION SELECT a FROM u UNION ALL SELECT a FROM v EXCEPT ", n) + "SELECT a FROM w" }},
+	{"mixed_cast_subscript_chain", func(n int) string { return "SELECT a" + rep("::int[1]", n) }},
 	// long lexemes: close to the byte limit while still under the token limit
 	{"long_identifiers_list", func(n int) string { return "SELECT " + repIndexed("a_rather_long_column_name_{i}, ", n) + "z FROM t" }},
 	{"long_literals_list", func(n int) string { return "SELECT " + repIndexed("'a string literal of some length {i}', ", n) + "1" }},
